@@ -2,6 +2,7 @@ import Pyunicorn.Lemmas.Window
 import Pyunicorn.Lemmas.WindowShuffle
 import Pyunicorn.Lemmas.WindowFloat
 import Pyunicorn.Lemmas.WindowFloat64
+import Pyunicorn.Lemmas.WindowFloatExact
 import Pyunicorn.Generated.ArithC13
 /-!
 # C13 — Data windows select exactly the requested samples; anomalies sum
@@ -2047,6 +2048,38 @@ theorem float_exec_after_history {u ud : ℚ} (F : FlArith u ud) (hu : 0 ≤ u) 
   · rw [hq] at hm
     exact float_exec_phase_mean_error F hu hud o'.cycle n i j obs h.curWF.cols hi hj m mf hm hf
   · exact float_exec_anomaly_add_phase_mean F o'.cycle n obs hc h.curWF.cols t ht
+
+/-- numbers with a significand below `2⁵³` are fixed points of the rounding (binary64 numbers are
+exactly the values the model can return) -/
+theorem ieee_representable_fixed (m : ℕ) (e : ℤ) (hm : m < 2 ^ 53) :
+    rn64 ((m : ℚ) * (2 : ℚ) ^ e) = (m : ℚ) * (2 : ℚ) ^ e ∧
+      rn64 (-((m : ℚ) * (2 : ℚ) ^ e)) = -((m : ℚ) * (2 : ℚ) ^ e) := by
+  have h0 : (0 : ℚ) ≤ (m : ℚ) * (2 : ℚ) ^ e := by positivity
+  have h1 : rn64 ((m : ℚ) * (2 : ℚ) ^ e) = (m : ℚ) * (2 : ℚ) ^ e := by
+    unfold rn64
+    rw [if_neg (not_lt.2 h0)]
+    exact rn53_dyadic m e hm
+  exact ⟨h1, by rw [rn64_neg, h1]⟩
+
+/-- **on integer data the binary64 execution is the rational model**: if the observable consists
+of integers bounded by `B` with `(T+1)·B < 2⁵³` and every phase sum is divisible by the number of
+samples of the phase (the harness's exact-integer stream: multiples of `lcm(1..⌈T/c⌉)`), then no
+operation of `phase_mean()` / `anomaly()` rounds — the doubles the code returns are exactly the
+rationals of the model, which is why that stream compares them for equality -/
+theorem float_exact_on_integer_data (c n : Nat) (B : ℕ) (obs : Mat) (hc : 0 < c)
+    (h : ∀ r ∈ obs, r.length = n) (hint : ∀ r ∈ obs, ∀ x ∈ r, ∃ z : ℤ, x = z ∧ |z| ≤ B)
+    (hB : (obs.length + 1) * B < 2 ^ 53)
+    (hdiv : ∀ i j, i < c → j < n → ∃ z : ℤ,
+      (column (everyNth c i obs) j).sum = ((everyNth c i obs).length : ℚ) * z) :
+    flPhaseMeanLoop ops64 c n obs = phaseMeanLoop c n obs
+      ∧ flAnomalyOf ops64 c n obs = anomalyOf c n obs :=
+  ⟨flPhaseMeanLoop_exact_on_integers c n B obs h hint
+      (lt_of_le_of_lt (Nat.mul_le_mul_right B (Nat.le_succ _)) hB) hdiv,
+   flAnomalyOf_exact_on_integers c n B obs hc h hint hB hdiv⟩
+
+example : flPhaseMeanLoop ops64 2 1 [[2], [4], [6], [8]] = phaseMeanLoop 2 1 [[2], [4], [6], [8]]
+    ∧ flAnomalyOf ops64 2 1 [[2], [4], [6], [8]] = [[-2], [-2], [2], [2]] := by
+  decide +kernel
 
 /-- non-vacuity / the model really rounds: `1 + 2⁻⁵³` is a tie and goes to the even neighbour `1`,
 `1/3` is not representable, a representable sum is returned exactly; in binary32 `1 + 2⁻²⁴` is the tie -/
